@@ -5,6 +5,14 @@ V = os.path.dirname(os.path.dirname(os.path.abspath(__file__)))
 
 # id -> (technique, level text, level note, design ref)
 CHECKS = {
+ "C14": ("proptest grammar documents x palettes x default colours x background; independent strict XML parser + expat second opinion; text/line/height oracle from the reference VT parser; per-character presentation resolved through the style sheet vs the reference SGR interpreter",
+         "Generated-input search with a validity-and-content oracle: every rendered document must parse with an XML 1.0 parser written for the check (and with expat), its foreground rows must spell the reference parser's visible text line by line, every class must be defined, and the CSS declarations reached through the classes must equal the reference terminal style (invert applied against the configured defaults, RGB through the published palettes / xterm formula).",
+         "Trusted: XML/CSS readers in vcore/src/xml.rs, expat, R-VT/R-SGR, published palettes. Tolerated and documented: a literal CR is compared after XML end-of-line normalisation; the underline kind is read from rules without a colour; background-row width is not checked.",
+         "DESIGN.md §4-C14"),
+ "C15": ("exhaustive single segments (17x17 colours x 192 effect subsets) + proptest segment lists over a roff-special alphabet; oracle = a roff reader that undoes the escapes and rejects any request other than the colour requests",
+         "Generated-input search inside the domain the property states, with a round-trip oracle: a small roff reader recovers (colours, font, text) per block from to_roff() and render() output and compares with the generated segments; any other request line or escape in the output is a violation, so text that manages to introduce a request is caught.",
+         "Trusted: the roff reader in the check. Three documented limitations of the cansi-based segmentation (F12, F13, F15) are open known findings replayed as fixed inputs; the generator stays inside the stated domain.",
+         "DESIGN.md §4-C15, §5"),
  "C08": ("stateful/model-based proptest: generated operation sequences (write, write_all, write_vectored, write!, flush) x 4 colour choices x 4 sink kinds x 2 constructors against a StripStream / identity model",
          "Model-based generated-input search over call histories: after every history the inner writer must hold strip(consumed) (Never) or the consumed bytes (AlwaysAnsi/Always), return values must equal a plain StripStream's, current_choice/into_inner/to_adapted_string must agree with the mode in force; Auto is exercised under two pinned environments.",
          "Trusted: StripStream<Vec<u8>> and strip_bytes as the model of 'what the strip stream would deliver' (their own correctness is C01/C03/C06).",
